@@ -67,17 +67,20 @@ class TreeDump(object):
             return self.L.idx[e.uid]
         return 'w'
 
-    def elem(self, e):
-        return [self.eid(e), enc(e.tagName), 1 if e.isSelfClosing else 0,
-                [enc(b) if isinstance(b, str) else self.eid(b) for b in e.blocks], [self.eid(c) for c in e.children],
-                enc(e.text), self.eid(e.parentNode), self.L.doc_id(e.ownerDocument),
-                [[enc(k), ('none' if v is None else enc(v))] for k, v in e.getAttributesList()]]
+    def elem(self, e, owner=True):
+        out = [self.eid(e), enc(e.tagName), 1 if e.isSelfClosing else 0,
+               [enc(b) if isinstance(b, str) else self.eid(b) for b in e.blocks], [self.eid(c) for c in e.children],
+               enc(e.text), self.eid(e.parentNode)]
+        if owner:
+            out.append(self.L.doc_id(e.ownerDocument))
+        out.append([[enc(k), ('none' if v is None else enc(v))] for k, v in e.getAttributesList()])
+        return out
 
-    def tree(self, e):
-        out = [self.elem(e)]
+    def tree(self, e, owner=True):
+        out = [self.elem(e, owner)]
         for b in e.blocks:
             if isinstance(b, self.L.Tag):
-                out.extend(self.tree(b))
+                out.extend(self.tree(b, owner))
         return out
 
 
@@ -229,7 +232,7 @@ class Check(PropCheck):
             e = cls.createElementFromHTML(h)
             td = TreeDump(L, base, multi)
             td.number(e)
-            a = ['ok', td.tree(e)]
+            a = ['ok', td.tree(e, False)]
         except L.AHP.MultipleRootNodeException:
             a = ['raise', MRN]
         td = TreeDump(L, base, multi)
@@ -237,13 +240,13 @@ class Check(PropCheck):
         for e in els:
             if e is not None:
                 td.number(e)
-        b = ['none' if e is None else td.tree(e) for e in els]
+        b = ['none' if e is None else td.tree(e, False) for e in els]
         td = TreeDump(L, base, multi)
         blocks = cls.createBlocksFromHTML(h)
         for x in blocks:
             if isinstance(x, L.Tag):
                 td.number(x)
-        c = [enc(x) if isinstance(x, str) else td.tree(x) for x in blocks]
+        c = [enc(x) if isinstance(x, str) else td.tree(x, False) for x in blocks]
         # createElement before the append (uids of the model: allocation counter of the initial world)
         doc = L.parser if L.parser is not None else cls()
         ce = doc.createElement(d['name'])
